@@ -266,7 +266,7 @@ func c11(r *core.Run) {
 		r.Undecided("C11/R3", "oracle.MsgUpdateFeed:anchor-missing", "", "handler missing")
 	} else {
 		guardRow(r, "C11/R3", h, "feed-owner", allEffects(), func(*ssa.Function) core.GuardMatch {
-			return eqGuard(p, onlyStoreField("oracle/Feed/value/", ".Owner"), signerOf(p, h), true)
+			return eqGuard(p, onlyStoreFieldH(p, h, "oracle/Feed/value/", ".Owner"), signerOf(p, h), true)
 		}, "Eq(Feed.Owner, signer)=true")
 	}
 	if h := core.HandlerByKey(hs, "oracle.MsgCreateFeed"); h == nil {
